@@ -7,11 +7,12 @@ RULE = ('one case = 2-4 real nodes over loopback RPC; bulk writes (put_many/del_
         'quorum-sized, All), every subset of S is made unable to acknowledge (its next storage mutation fails, or it has crashed and refuses connections while still selected, or - separate stream - it stays SILENT: its storage call writes and never returns, and the call must still come back with the consistency error within the advertised timeout), the write is issued through the real handle_consistency_distribution, and immediately afterwards '
         'Storage::get is called on the issuer and on every selected node. Checked: Ok => the document (or a newer record) is readable from the issuer and from EVERY selected node; otherwise the error is '
         'ConsistencyFailure{responses = number that acknowledged, required = |S|}, and the local write is in place. Also a prior newer write on a replica (will_apply = false => acknowledged without a storage call). '
+        '"Still replicated later": writes handed to the REAL task distributor of the issuer after a member went silent (each tick then lasts until the 10 s deadline of its requests) must reach every member that answers; the repair cycle of a healthy node whose first member is the silent one must still fetch from the issuer; a member that came back under a second identity at its address keeps receiving once the first identity has left. '
         'non-trivial = at least one failing replica and at least one acknowledging one; distinct by hash. Selection of S for a level is C15\'s business.')
 ASSUMPTIONS = ['the replicas a level requires are chosen by the node selector (C15: select_sound gives distinct, live, non-local, enough); here S is given',
                'a silent replica is one whose storage call never returns; a silent NETWORK (black-holed connection) takes the same path in handle_consistency_distribution - the deadline is on the whole distribution, not per transport']
 TRUSTED_BASE = ['correspondence: dcharness (real ConsistencyClient/ConsistencyService + handle_consistency_distribution via hook H2) vs dcdriver (Datacake.Cluster model)']
-THEOREM_NOTE = 'Datacake.Cluster.applyAt and the wput/wdel step of the driver (Model/Cluster.lean); Cluster.write / replicateAll / distribute is what the driver executes for wput/wdel/wmput/wmdel; theorems ok_means_stored, distribute_spec, distribute_replies, silent_is_counted_out, legacy_blocks, and about the executed function itself (Props/C06b): replicateAll_spec, write_spec'
+THEOREM_NOTE = 'Datacake.Cluster.applyAt and the wput/wdel step of the driver (Model/Cluster.lean); Cluster.write / replicateAll / distribute is what the driver executes for wput/wdel/wmput/wmdel; theorems ok_means_stored, distribute_spec, distribute_replies, silent_is_counted_out, legacy_blocks, and about the executed function itself (Props/C06b): replicateAll_spec, write_spec; the later replication (Props/C06c, about Cluster.broadcast = a distributor tick): broadcast_reaches_responsive, broadcastAll_step, legacy_broadcast_blocks'
 JOBS = 6
 SHRINK = False
 
